@@ -1395,6 +1395,113 @@ static Result execShiftMix(const std::vector<std::string>& w) {
 }
 
 // ------------------------------------------------------------------------------------------------
+// A scalar operand of ANOTHER arithmetic type than the lanes: `v @ s`, `s @ v` for the mask-valued operators
+// (comparisons, && ||) and `v << s`, `v >> s`.  Lane l must be the built-in mixed-type expression `lane(l, v) @ s`
+// (usual arithmetic conversions inside the lane, the scalar NOT converted to the lanes' type first):
+// LoopSIMD<int,4>{1,2,3,4} < 2.5 is {1,1,0,0}, LoopSIMD<float,4>(0.1f) == 0.1 is false in every lane.
+//   binx <T> <shape> <vs|sv> <op> <[lanes]> <U> <s>
+// ------------------------------------------------------------------------------------------------
+template <class T> bool validShiftMixed(bool shl, T a, long long c) {
+  using P = decltype(+a);
+  const int bits = 8 * (int)sizeof(P);
+  if (c < 0 || c >= bits) return false;
+  if constexpr (std::is_unsigned_v<P>) return true;
+  else {
+    if (!shl) return true;
+    if (a < 0) return false;
+    return ((__int128)a << c) <= (__int128)std::numeric_limits<P>::max();
+  }
+}
+
+template <class V, class U>
+Result execMixed(const std::vector<std::string>& w) {
+  using T = ScalarOf<V>;
+  using M = Simd::Mask<V>;
+  constexpr std::size_t n = RawT<V>::n;
+  Result res;
+  const std::string& form = w.at(3);
+  const int op = opCode(w.at(4));
+  const bool vs = form == "vs";
+  if ((!vs && form != "sv") || op < SHL) return noSuchOp();
+  const V a = parseVec<V>(w.at(5));
+  const U s = Cod<U>::parse(w.at(7));
+  if (op == SHL || op == SHR) {
+    if constexpr (std::is_integral_v<T> && std::is_integral_v<U>) {
+      if (!vs) return noSuchOp();
+      for (std::size_t k = 0; k < n; ++k) if (!validShiftMixed<T>(op == SHL, RawT<V>::at(a, k), (long long)s)) return invalidInput();
+      const V r = op == SHL ? (a << s) : (a >> s);
+      res.impl = showVec(r);
+      for (std::size_t k = 0; k < n; ++k) {
+        const T x = RawT<V>::at(a, k);
+        const T e = static_cast<T>(op == SHL ? (x << s) : (x >> s));
+        if (!Cod<T>::same(RawT<V>::at(r, k), e)) laneMismatch(res, k, RawT<V>::at(r, k), e, std::string("the scalar shift by a count of type ") + Cod<U>::name());
+      }
+      return res;
+    } else return noSuchOp();
+  }
+  M r;
+  if (op >= LAND && !vs && IsNested<V>::value) return noSuchOp();   // no `Mask<T> && vector` overload for nested vectors
+  switch (op) {
+    case LT: r = vs ? (a < s) : (s < a); break;
+    case GT: r = vs ? (a > s) : (s > a); break;
+    case LE: r = vs ? (a <= s) : (s <= a); break;
+    case GE: r = vs ? (a >= s) : (s >= a); break;
+    // the scalar-vector forms of == and != are called by name: as an expression, C++20 would also consider the reversed
+    // vector-scalar candidate (and reject the program if that one were the better match)
+    case EQ: r = vs ? (a == s) : operator==(s, a); break;
+    case NE: r = vs ? (a != s) : operator!=(s, a); break;
+    case LAND: if constexpr (!IsNested<V>::value) { r = vs ? (a && s) : (s && a); } else { r = (a && s); } break;
+    case LOR: if constexpr (!IsNested<V>::value) { r = vs ? (a || s) : (s || a); } else { r = (a || s); } break;
+    default: return noSuchOp();
+  }
+  res.impl = showVec(r);
+  for (std::size_t k = 0; k < n; ++k) {
+    const T x = RawT<V>::at(a, k);
+    bool e = false;
+    switch (op) {
+      case LT: e = vs ? (x < s) : (s < x); break;
+      case GT: e = vs ? (x > s) : (s > x); break;
+      case LE: e = vs ? (x <= s) : (s <= x); break;
+      case GE: e = vs ? (x >= s) : (s >= x); break;
+      case EQ: e = vs ? (x == s) : (s == x); break;
+      case NE: e = vs ? (x != s) : (s != x); break;
+      case LAND: e = vs ? (x && s) : (s && x); break;
+      case LOR: e = vs ? (x || s) : (s || x); break;
+    }
+    if (RawT<M>::at(r, k) != e)
+      laneMismatch(res, k, (bool)RawT<M>::at(r, k), e, std::string("the scalar expression with the ") + Cod<U>::name() + " operand in its own type");
+  }
+  return res;
+}
+
+template <class V> Result execMixedU(const std::vector<std::string>& w) {
+  const std::string& U = w.at(6);
+  if (U == "f64") return execMixed<V, double>(w);
+  if (U == "f32") return execMixed<V, float>(w);
+  if (U == "i32") return execMixed<V, int>(w);
+  if (U == "i64") return execMixed<V, long>(w);
+  if (U == "u32") return execMixed<V, unsigned>(w);
+  if (U == "i16") return execMixed<V, short>(w);
+  if (U == "b") return execMixed<V, bool>(w);
+  Result r; r.impl = "bad-op"; r.oracle = "ok trivial"; return r;
+}
+
+static Result execMixedT(const std::vector<std::string>& w) {
+  if (w.size() != 8) { Result r; r.impl = "bad-op"; r.oracle = "ok trivial"; return r; }
+  const std::string key = w[1] + ":" + w[2];
+  if (key == "f64:4") return execMixedU<LoopSIMD<double, 4>>(w);
+  if (key == "f32:4") return execMixedU<LoopSIMD<float, 4>>(w);
+  if (key == "i32:4") return execMixedU<LoopSIMD<int, 4>>(w);
+  if (key == "i64:4") return execMixedU<LoopSIMD<long, 4>>(w);
+  if (key == "u32:4") return execMixedU<LoopSIMD<unsigned, 4>>(w);
+  if (key == "i16:4") return execMixedU<LoopSIMD<short, 4>>(w);
+  if (key == "b:4") return execMixedU<LoopSIMD<bool, 4>>(w);
+  if (key == "f64:2x2") return execMixedU<LoopSIMD<LoopSIMD<double, 2>, 2>>(w);
+  if (key == "i32:2x2") return execMixedU<LoopSIMD<LoopSIMD<int, 2>, 2>>(w);
+  Result r; r.impl = "bad-op"; r.oracle = "ok trivial"; return r;
+}
+
+// ------------------------------------------------------------------------------------------------
 // dispatch
 // ------------------------------------------------------------------------------------------------
 using ExecFn = Result (*)(const std::vector<std::string>&);
@@ -1497,6 +1604,14 @@ static Result exec(const std::string& line) {
     if (w.at(2) == "2") return execCplx<2>(w);
     if (w.at(2) == "4") return execCplx<4>(w);
     return badOp();
+  }
+  if (kind == "binx") {
+    stat("binx_" + w.at(1) + "_" + (w.size() > 6 ? w[6] : std::string("?")));
+    if (w.size() > 4) stat("binx_" + w[3] + "_" + w[4]);
+    Result r = execMixedT(w);
+    if (r.impl == "invalid") stat("skipped_invalid_int_operands");
+    if (r.impl == "ERR:NoSuchOp") stat("skipped_no_such_op");
+    return r;
   }
   if (kind == "realign") return execRealign(w);
   if (kind == "shiftmix") { Result r = execShiftMix(w); if (r.impl == "invalid") stat("skipped_invalid_int_operands"); return r; }
@@ -1828,6 +1943,71 @@ static std::string genCplx(Rng& rng) {
   return line;
 }
 
+// --- scalar operand of another arithmetic type -----------------------------------------------------
+static long double tokValue(const std::string& T, const std::string& tok) {
+  if (T == "f64") return Cod<double>::parse(tok);
+  if (T == "f32") return Cod<float>::parse(tok);
+  if (T == "b") return tok == "1" ? 1 : 0;
+  return (long double)std::stoll(tok);
+}
+// a token of type U holding (the value nearest to) y
+static std::string mkTok(const std::string& U, long double y) {
+  if (U == "f64") return tokD((double)y);
+  if (U == "f32") return tokF((float)y);
+  if (U == "b") return y != 0 ? "1" : "0";
+  if (y != y) y = 0;
+  long double lo = 0, hi = 0;
+  if (U == "i32") { lo = std::numeric_limits<int>::min(); hi = std::numeric_limits<int>::max(); }
+  else if (U == "i64") { lo = -9223372036854775807.0L; hi = 9223372036854775807.0L; }
+  else if (U == "u32") { lo = 0; hi = 4294967295.0L; }
+  else { lo = -32768; hi = 32767; }
+  y = std::trunc(y);
+  if (y < lo) y = lo;
+  if (y > hi) y = hi;
+  return std::to_string((long long)y);
+}
+static std::string genMixed(Rng& rng) {
+  static const std::vector<std::string> Ts = {"f64", "f32", "i32", "i32", "i64", "u32", "i16", "b"};
+  const std::string T = rng.pick(Ts);
+  std::string U = T;
+  if (!rng.coin(1, 8)) for (int t = 0; t < 20 && U == T; ++t) U = rng.pick(Ts);
+  std::string shape = "4";
+  if ((T == "i32" || T == "f64") && rng.coin(1, 4)) shape = "2x2";
+  const std::size_t n = 4;
+  const bool intT = T != "f64" && T != "f32", intU = U != "f64" && U != "f32";
+  static const std::vector<std::string> cmps = {"lt", "gt", "le", "ge", "eq", "ne"};
+  std::string op = rng.pick(cmps);
+  std::string form = rng.coin() ? "vs" : "sv";
+  int sel = (int)rng.below(20);
+  if (sel < 3) { op = rng.coin() ? "land" : "lor"; if (shape == "2x2") form = "vs"; }
+  else if (sel < 6 && intT && intU) { op = rng.coin() ? "shl" : "shr"; form = "vs"; }
+  const bool shift = op == "shl" || op == "shr";
+  const std::string A = genVec(rng, T, n, shift ? 1 : (rng.coin() ? 1 : 0));
+  std::string s;
+  if (shift) s = mkTok(U, (long double)(rng.coin(1, 8) ? rng.range(-1, 65) : rng.range(0, 31)));
+  else if (rng.coin(1, 4)) s = genScalar(rng, U, 0);
+  else {
+    // a scalar related to one of the lanes: equal, off by a half / one / a rounding error of the narrower type, or
+    // congruent modulo 2^16 / 2^32 (what a narrowing conversion of the scalar would map onto the lane)
+    const auto lanes = listToks(A);
+    const long double x = tokValue(T, lanes[rng.below(lanes.size())]);
+    long double y = x;
+    switch (rng.below(10)) {
+      case 0: case 1: break;
+      case 2: y = x + 0.5L; break;
+      case 3: y = x - 0.5L; break;
+      case 4: y = x + 1; break;
+      case 5: y = x - 1; break;
+      case 6: y = x * (1 + 0x1p-40L); break;
+      case 7: y = x + 65536.0L * (long double)rng.range(1, 3); break;
+      case 8: y = x + 4294967296.0L * (rng.coin() ? 1 : -1); break;
+      default: y = x + 0.25L; break;
+    }
+    s = mkTok(U, y);
+  }
+  return "binx " + T + " " + shape + " " + form + " " + op + " " + A + " " + U + " " + s;
+}
+
 static std::string propose(Rng& rng, const Args& a) {
   int sel = (int)rng.below(100);
   if (sel < 24) return genMat(rng, a);
@@ -1845,6 +2025,7 @@ static std::string propose(Rng& rng, const Args& a) {
       }
     }
   }
+  if (sel < 42) return genMixed(rng);
   static const std::vector<std::string> Ts = {"f64", "f64", "f64", "f32", "f32", "i32", "i32", "i32", "i64", "i64", "b", "b", "u32", "i16"};
   static const std::vector<std::string> flat = {"1", "2", "4", "8"};
   static const std::vector<std::string> nested = {"2x2", "4x2", "2x4"};
